@@ -379,7 +379,9 @@ def batchLoop {α : Type} (size : Nat) (hs : 0 < size) (chunks : List α) (i : N
 termination_by chunks.length - i
 decreasing_by omega
 
-/-- `(*BatchExporter).Export`; `none` for batch size 0 (the Go loop does not terminate) -/
+/-- `(*BatchExporter).Export`; `none` for batch size 0 = the error "batch size must be positive" (fix e7cdf1b;
+before it the call panicked on a non-empty collection — not, as an earlier comment said, a loop that does not
+terminate; every `int` size incl. negative ones: `batchExportRunInt` in `Model/ExportIO.lean`) -/
 def batchExport {α : Type} (size : Nat) (chunks : List α) : Option (List (Batch α)) :=
   if hs : 0 < size then some (batchLoop size hs chunks 0) else none
 
